@@ -13,8 +13,10 @@ def gen(chk, tier):
     # signatures whose r, s or t = (r+s) mod n has leading zero bytes (the verifier consumes
     # t as a byte string), solved for directly
     for which in ("r", "s", "t"):
-        for nz in ((1, 2) if q else (1, 2, 3, 5, 8)):
-            for _ in range(4 if q else 20):
+        # up to 31 leading zero bytes: tiny r, s and t (a tiny t exercises the first iterations of the
+        # interleaved comb/NAF loop of the double-scalar multiplication)
+        for nz in ((1, 2, 8, 16, 24, 29, 30, 31) if q else (1, 2, 3, 5, 8, 12, 16, 20, 24, 28, 29, 30, 31)):
+            for _ in range(2 if q else 12):
                 d = rscalar(rng)
                 k, e = sm2gen.leading_zero_case(rng, d, which, nz)
                 g.one("leading_zero_%s_%d" % (which, nz), "sm2.signverify", kind="hashed", priv=b32(d), e=b32(e),
